@@ -9,7 +9,8 @@ CHECKS = {
         text=("TLC checks exhaustively (all lock/endpoint combinations, histories to depth 3 quick / 5 thorough over 4x4x4 "
               "rational alphabets) that the transcription of the Grid setters (GridImpl.tla) refines the property-level "
               "step relation (Grid.tla: consistency, locks, reciprocal sampling); the histories TLC emits plus seeded random "
-              "1-D/2-D histories are replayed on the real Grid class and every recorded state is validated by GridTrace.tla."),
+              "1-D/2-D histories are replayed on the real Grid class and every recorded state is validated by GridTrace.tla."
+              " Batch 8: actions Copy (copy / deepcopy / pickle replaces the grid) and Match (with a fully defined grid without end points) in the random histories; every numeric argument in another form (NumPy scalar, 0-d array, list, array)."),
         technique="TLA+ refinement check (TLC) + spec-generated histories replayed on the real class + TLC trace validation",
         design_ref="DESIGN.md 5 C17",
         note=NOTE_COMMON + " Rationals with denominator <= 4096 are recovered exactly from floats; inexact traces are skipped and counted.",
@@ -21,7 +22,8 @@ CHECKS = {
               "limits, and checks the Chunks.tla predicates (partition, limit when a valid chunking exists, equal-sized, "
               "contiguous ranges); every enumerated call plus seeded random larger calls is executed on the real functions "
               "and the returned values are validated by ChunksTrace.tla; the model's predicted results are compared with the "
-              "code's (model_drift)."),
+              "code's (model_drift)."
+              " Batch 8: the element limit as an int, as a byte string for the dtype and as \"auto\" under dask.chunk-size set after import; NumPy integers for equal_sized_chunks."),
         technique="TLA+ model of the chunking algorithms checked with TLC; TLC-enumerated calls executed on the real functions; TLC trace validation of returned values",
         design_ref="DESIGN.md 5 C18",
         note=NOTE_COMMON + " Byte-derived 'auto' limits are replaced by explicit element limits; zero-length dimensions are not enumerated.",
@@ -72,7 +74,8 @@ CHECKS = {
               "shape and axes metadata are decided by ScanTrace.tla; probe builds at TLC-enumerated position classes (on/off "
               "pixel, negative, beyond the cell, odd/even grids) are compared with the origin probe shifted by an independent "
               "numpy Fourier shift / roll."
-              " ScanHist.tla: edits (end point, sampling, gpts) on one LineScan object with the geometry clauses after every edit (named deviation SkipWhenGptsUnchanged); every emitted history is replayed on a real LineScan."),
+              " ScanHist.tla: edits (end point, sampling, gpts) on one LineScan object with the geometry clauses after every edit (named deviation SkipWhenGptsUnchanged); every emitted history is replayed on a real LineScan."
+              " Batch 8: scans through copy / deepcopy / pickle, corners / gpts / sampling in other argument forms, grid scans created from corners and end-point flags only with gpts / sampling assigned afterwards."),
         technique="TLA+ model of scan resolution (TLC) + TLC-enumerated scans executed on the real classes + TLC trace validation over exact rationals",
         design_ref="DESIGN.md 5 C20",
         note=NOTE_COMMON + " float32 positions are mapped to rationals with denominator <= 1024 (inexact cases skipped and counted); probe comparison tolerance 2e-5.",
@@ -85,7 +88,8 @@ CHECKS = {
               "seeds, AtomsEnsemble, Waves/Images with ordinal, linear, positions and frozen-phonon axes, eager and lazy) both "
               "through generate_blocks and ensemble_blocks().compute(); EnsembleTrace.tla decides that each block holds exactly "
               "the members its chunk range selects, in order, each block index once, slices = ranges, lazy = eager."
-              " Batch 7: the lazy blocks of every ensemble are computed in ONE dask graph with those of a sibling ensemble (same kind, shape, chunking, other parameters) and both are judged; scans that were partitioned, moved (same extent and gpts) and partitioned again."),
+              " Batch 7: the lazy blocks of every ensemble are computed in ONE dask graph with those of a sibling ensemble (same kind, shape, chunking, other parameters) and both are judged; scans that were partitioned, moved (same extent and gpts) and partitioned again."
+              " Batch 8: the eager and the lazy side of every ensemble reach the partition through different routes (copy / deepcopy / pickle); GraphNames.tla (growth) is checked and bound here."),
         technique="TLA+ partition model (TLC) + TLC-enumerated chunkings executed on the real ensemble classes + TLC trace validation",
         design_ref="DESIGN.md 5 C19",
         note=NOTE_COMMON + " Member identities are interned values (positions rounded to 1e-5, values+weights, seeds, array fill ids + axis values).",
@@ -109,7 +113,8 @@ CHECKS = {
               "the cases run on the real PolarMeasurements.integrate/integrate_radial (eager and lazy) with the one-hot ensemble "
               "over the bins, so the result decodes exactly to the summed bin set; PolarTrace.tla decides 'bins inside the "
               "limits', 'no limits = all bins' and that edge-aligned partitions of either axis are disjoint and cover."
-              " Round 3: limits one bin below the first edge and inside a bin, ClampNegative deviation with Python slice semantics in PolarImpl."),
+              " Round 3: limits one bin below the first edge and inside a bin, ClampNegative deviation with Python slice semantics in PolarImpl."
+              " Batch 8: limits handed over as NumPy scalars, lists, 0-d arrays and arrays (harness/vf/forms.py)."),
         technique="TLA+ model of the limit-to-bin algebra (TLC, exact rationals) + TLC-enumerated cases on the real code with one-hot decoding + TLC trace validation",
         design_ref="DESIGN.md 5 C13",
         note=NOTE_COMMON + " Azimuthal quantities are rationals in units of pi; the harness multiplies by math.pi when calling.",
@@ -151,7 +156,8 @@ CHECKS = {
               "Nyquist content; float32 and float64), mean and reciprocal-space intensity, whole-pixel shift vs roll, "
               "composition of fractional shifts and Waves.downsample of band-limited waves (eager/lazy, against an independent "
               "direct Fourier-series evaluation) are logged as deviations and bounded by FourierTrace.tla."
-              " Round 3: data precision differing from the configured precision."),
+              " Round 3: data precision differing from the configured precision."
+              " Batch 8: the overwrite_x=True route of every interpolation case; geometry of the downsampled wave (extent kept, sampling = extent / gpts per axis)."),
         technique="TLA+ index-algebra model (TLC) + TLC-enumerated shapes on the real FFT helpers with exact index decoding + TLC trace validation",
         design_ref="DESIGN.md 5 C15",
         note=NOTE_COMMON + " Numeric closeness is computed by numpy in the harness (tolerance 2e-5 single / 1e-9 double).",
@@ -164,7 +170,8 @@ CHECKS = {
               "sample of the 6.3e4 two-step histories and simulated length-4 histories are replayed on a real Aberrations "
               "object; AberrationsTrace.tla decides that the reported coefficients follow the abstract store after every step, "
               "that each evaluation on a 7x16 (alpha, phi) grid in double precision equals exp(-2 pi i chi/lambda) for the "
-              "current coefficients (deviation logged), and the azimuthal rotation identity."),
+              "current coefficients (deviation logged), and the azimuthal rotation identity."
+              " Batch 8: every evaluation also on a copy / deepcopy / pickle of the object; an energy-less Aberrations applied to waves of two energies in turn."),
         technique="TLA+ state machine of the coefficient store (TLC) + spec-generated histories replayed on the real object + TLC trace validation; chi evaluated by a numpy reference built from the spec's table",
         design_ref="DESIGN.md 5 C21",
         note=NOTE_COMMON + " The wavelength is taken from abtem.core.energy (C24 is not claimed); tolerance 1e-7 on |transfer| = 1.",
@@ -176,7 +183,8 @@ CHECKS = {
               "trip stays in the class (C, phi) ~ (-C, phi + pi/m), phi mod 2 pi/m, with exact integer division; every case "
               "(with C10/C30 alongside) and seeded joint cases with all pairs set run on the real functions; ConversionsTrace.tla "
               "decides class membership of the decoded (C', phi') in integer arithmetic, pass-through of the isotropic terms and "
-              "bounds the logged chi deviation on a 7x16 grid."),
+              "bounds the logged chi deviation on a 7x16 grid."
+              " Batch 8: coefficients as NumPy scalars and as series (length-2 arrays, both members judged)."),
         technique="TLA+ branch-structure model over an integer angle lattice (TLC) + TLC-enumerated cases on the real functions + TLC trace validation",
         design_ref="DESIGN.md 5 C22",
         note=NOTE_COMMON + " Returned floats are decoded to lattice integers (1e-9 / 1e-6 guards; undecodable = rejected); chi tolerance 1e-7 relative.",
@@ -189,7 +197,8 @@ CHECKS = {
               "+ half a pixel computed from an independent frequency grid, binary-ness of hard apertures, max(|CTF| - aperture)) "
               "and TransferTrace.tla decides the bounds of the statement; the harness fails (exit 2) unless every enumerated "
               "scenario was observed."
-              " TransferHist.tla: one Aperture / CTF / envelope object evaluated, edited through its setters (energy, extent, gpts, cutoff, spreads) or copied, and evaluated again, every evaluation judged against the geometry of the current parameters (named deviation CacheAngularGrid); on a coordinate axis the soft edge must fit the axis' own angular sampling."),
+              " TransferHist.tla: one Aperture / CTF / envelope object evaluated, edited through its setters (energy, extent, gpts, cutoff, spreads) or copied, and evaluated again, every evaluation judged against the geometry of the current parameters (named deviation CacheAngularGrid); on a coordinate axis the soft edge must fit the axis' own angular sampling."
+              " Batch 8: transfer functions through copy / deepcopy / pickle; spread class 3 = a weighted series of spreads, every member judged."),
         technique="TLA+ scenario enumeration and bound predicates (TLC) over fixed-point observations of the real kernels; TLC trace validation",
         design_ref="DESIGN.md 5 C23",
         note=NOTE_COMMON + " The numeric kernels are evaluated by abTEM in single precision; tolerance 2e-5. 'Half a pixel' is half of the larger angular pixel size.",
@@ -231,7 +240,8 @@ CHECKS = {
               "hooks on (single precision, every 4th also double) and MultisliceTrace.tla checks, inside the run machine, that "
               "the total intensity logged after every slice never increases, that vacuum propagation of band-limited waves "
               "conserves it, and that P(-dz) P(dz) is the identity on band-limited waves."
-              " Round 3: second-order vacuum scenarios also in double precision held to 1e-7; one propagator object propagating two different waves of the same shape in place."),
+              " Round 3: second-order vacuum scenarios also in double precision held to 1e-7; one propagator object propagating two different waves of the same shape in place."
+              " Batch 8: a whole vacuum run undone by the conjugate algorithm for waves in memory and for lazy waves; band-limited cases also under a configured antialias aperture wider than the shipped one, set after import."),
         technique="TLA+ scenario model + run machine with an intensity-monotonicity action property (TLC trace validation over hook events)",
         design_ref="DESIGN.md 5 C04",
         note=NOTE_COMMON + " Intensities are logged in fixed point (1e-3 of a unit) with a 2e-5 relative slack.",
@@ -243,7 +253,8 @@ CHECKS = {
               "last <= n, checking BuiltOK and WindowOK over symbolic slice values; every case is realised with Potential, "
               "PotentialArray and CrystalPotential, with and without frozen phonons, and PotentialBuildTrace.tla decides lazy = "
               "eager per member, member k = potential of configuration k (independent build), and that generate_slices(first, "
-              "last) is exactly full[first:last] (identified by exact array equality) with equal exit-plane tags and thicknesses."),
+              "last) is exactly full[first:last] (identified by exact array equality) with equal exit-plane tags and thicknesses."
+              " Batch 8: potentials reach the build through a copy / deepcopy / pickle round trip."),
         technique="TLA+ loop model with symbolic slices (TLC) + TLC-enumerated windows on the real potentials + TLC trace validation",
         design_ref="DESIGN.md 5 C10",
         note=NOTE_COMMON + " build() is exercised for the full slice range only (windowed lazy build is outside the statement; it currently raises and is noted as growth).",
@@ -270,7 +281,8 @@ CHECKS = {
               "SlicingTrace.tla decides the observed slice of every atom against SliceOf in integer arithmetic, and bounds the "
               "logged deviations for 'potential of a union = sum of potentials' (random splits, both projections) and 'projected "
               "potential independent of slicing' (infinite projection)."
-              " SlicingHist.tla: histories of inspections on one Potential object (slice-window queries for all / one element incl. the single-slice form the build uses, projection, window generation) followed by a build, with the named deviation CacheIgnoresElement; every emitted history is replayed and the build compared with a fresh one and with the sum of the per-element potentials."),
+              " SlicingHist.tla: histories of inspections on one Potential object (slice-window queries for all / one element incl. the single-slice form the build uses, projection, window generation) followed by a build, with the named deviation CacheIgnoresElement; every emitted history is replayed and the build compared with a fresh one and with the sum of the per-element potentials."
+              " Batch 8: atoms 1e-9 below every slice boundary, below the top face (also given as z = -1e-9) and beside the lateral faces (clause atom_just_below_a_boundary_or_face_not_in_its_slice)."),
         technique="TLA+ model of slice assignment over an integer lattice (TLC) + TLC-enumerated slicings on real potentials + TLC trace validation",
         design_ref="DESIGN.md 5 C09",
         note=NOTE_COMMON + " Atoms are identified by their unique lateral position; numeric tolerance 2e-5.",
@@ -284,7 +296,8 @@ CHECKS = {
               "and thermal sigmas for subsets, positions left outside the cell or wrapped), PotentialArray.tile and "
               "CrystalPotential; DeltasTrace.tla bounds the logged deviations translated-vs-rolled, supercell-vs-tiled and the "
               "slice means under random sub-pixel translations."
-              " Round 3: atomic columns (same element, same pixel, same slice) in DeltasImpl and in the structures."),
+              " Round 3: atomic columns (same element, same pixel, same slice) in DeltasImpl and in the structures."
+              " Batch 8: DeltasImpl class next_pixel - a further atom of the same element in the neighbouring pixel, no two atoms sharing a floor pixel (overlapping bilinear footprints)."),
         technique="TLA+ exact-rational model of atom placement on the periodic grid (TLC) + TLC-enumerated classes on real potentials + TLC trace validation",
         design_ref="DESIGN.md 5 C08",
         note=NOTE_COMMON + " The convolution with the atomic form factor is checked numerically only (tolerance 5e-5).",
@@ -298,7 +311,8 @@ CHECKS = {
               "succeed or raise the same exception class), type, shape (declared and computed), axes metadata, metadata, values "
               "within tolerance, an equal number of executed blocks (Block hook) under both schedulers, and that all six "
               "variants were observed."
-              " Round 3: 3 x 5 grid scan split unevenly by max_batch 2 and 4, quick tier stratified over builder x scan x potential."),
+              " Round 3: 3 x 5 grid scan split unevenly by max_batch 2 and 4, quick tier stratified over builder x scan x potential."
+              " Batch 8: builder tilt (a series along y; a scalar x with a series along y) and a 3 x 4 grid scan with endpoint (True, False) are scenario dimensions."),
         technique="TLA+ scenario enumeration + interleaving model of block execution (TLC) + lazy/eager differential runs validated by a TLC trace spec",
         design_ref="DESIGN.md 5 C01",
         note=NOTE_COMMON + " The oracle is the eager run of the same code (a change breaking both modes identically is invisible here; C02/C06/C07 compare different code paths); dask's scheduler is trusted; tolerance 5e-5.",
@@ -309,7 +323,8 @@ CHECKS = {
               "and every enumerated call is made on the real code; for measurements every public method with an entry in the "
               "harness' argument table is called (methods without an entry are listed in the evidence as not exercised).  The "
               "frame condition snapshot(input) before = after (positions, cell, numbers, pbc, tags, constraints, info / array "
-              "bytes, dtype, metadata, axes metadata) is decided by OwnershipTrace.tla for every call, whether or not it raises."),
+              "bytes, dtype, metadata, axes metadata) is decided by OwnershipTrace.tla for every call, whether or not it raises."
+              " Batch 8 (growth): Rebuild.tla is checked here and 25 kinds of objects with non-default constructor arguments are sent along every route they offer (rebuilt from _copy_kwargs, copy, deepcopy, pickle) and compared field by field (drift only)."),
         technique="TLA+ frame condition over a TLC-enumerated call space; snapshots of caller-owned inputs around every real call validated by a TLC trace spec",
         design_ref="DESIGN.md 5 C32",
         note=NOTE_COMMON + " The state machine content of this property is a single frame condition; TLC's share is the enumeration and the verdicts.",
@@ -324,7 +339,8 @@ CHECKS = {
               "DetectTrace.tla compares the decoded sets with Ring(inner, outer) computed in integer arithmetic, the split "
               "ranges, and every flexible bin with Ring(offset + k w, offset + (k+1) w) for the width w its metadata states."
               " Round 3: adjacent ranges integrated one after the other from one pattern object; growth probe (drift only): default-limit detectors reused for other waves."
-              " Batch 7: annular and segmented detector objects that have already detected waves of the same gpts on a grid of another extent (clause detector_used_before_on_another_grid)."),
+              " Batch 7: annular and segmented detector objects that have already detected waves of the same gpts on a grid of another extent (clause detector_used_before_on_another_grid)."
+              " Batch 8: detectors reach detect() through a copy / deepcopy / pickle round trip."),
         technique="TLA+ ring algebra on the integer frequency lattice (TLC) + one-hot decoding of the real detectors + TLC trace validation",
         design_ref="DESIGN.md 5 C12",
         note=NOTE_COMMON + " Azimuthal membership of individual segments is not modelled (only their union and uniform response).",
@@ -377,7 +393,8 @@ CHECKS = {
               "400 + all plane waves (quick) are built with the real Probe / PlaneWave and NormTrace.tla bounds, for every member of "
               "every built ensemble, sum |FFT psi|^2 - computed by numpy from the returned array - to 1 +- 3e-5, and the modulus "
               "of un-normalised plane waves to 1 at every pixel."
-              " Builder histories: one Probe / PlaneWave object built, edited through its attributes (energy, extent, gpts, sampling, cutoff, defocus, Cs, tilt; one or two edits) and built again."),
+              " Builder histories: one Probe / PlaneWave object built, edited through its attributes (energy, extent, gpts, sampling, cutoff, defocus, Cs, tilt; one or two edits) and built again."
+              " Batch 8: the builder reaches build() through a copy / deepcopy / pickle round trip (harness/vf/routes.py)."),
         technique="TLA+ scenario enumeration and bound predicates (TLC) over fixed-point observations of real builds; TLC trace validation",
         design_ref="DESIGN.md 5 C05",
         note=NOTE_COMMON + " The numeric kernel is abTEM's; TLC contributes the enumeration, coverage and the bound verdicts.",
@@ -390,7 +407,8 @@ CHECKS = {
               "DecompTrace.tla decides: both raise or neither, ensemble shape, each distribution's axis metadata lists its values "
               "in order (defocus as -C10), member (i1, i2) equals the scalar run at (v1[i1], v2[i2]) with the axes located through "
               "their metadata, and an ensemble_mean axis (after detection) equals the mean of the members."
-              " Round 3: 5-member axes evaluated lazily with max_batch 2 (uneven blocks), non-zero scalar companions (tilt, Cs, defocus) next to the distributions, stratified quick tier."),
+              " Round 3: 5-member axes evaluated lazily with max_batch 2 (uneven blocks), non-zero scalar companions (tilt, Cs, defocus) next to the distributions, stratified quick tier."
+              " Batch 8: quick strata per (object, batching, parameter, lazy, that parameter's own series length)."),
         technique="TLA+ case enumeration and acceptance predicate (TLC) over ensemble-vs-scalar differential runs; TLC trace validation",
         design_ref="DESIGN.md 5 C03",
         note=NOTE_COMMON + " Member equality uses unit-weight distributions; the weighted-mean clause is checked for unit weights only (the statement leaves the weighting convention open). Tolerance 5e-5.",
@@ -410,7 +428,8 @@ CHECKS = {
               "SMatrixArray.reduce and compared with Probe.multislice / Probe.scan (no interpolation) or the tiled small-cell probe "
               "sent through Waves.multislice and windowed (interpolation). PrismTrace.tla decides waves, detector values, shapes and "
               "lazy == eager."
-              " Scenario dimensions added in round 3: CTF aperture given / unset, and S-matrix objects that were inspected (len, shape, wave_vectors) and then edited through their setters (cutoff, potential) before the reduction."),
+              " Scenario dimensions added in round 3: CTF aperture given / unset, and S-matrix objects that were inspected (len, shape, wave_vectors) and then edited through their setters (cutoff, potential) before the reduction."
+              " Batch 8: the S-matrix built eagerly as one array object and then reduced; a lazy default-aperture reduction computed only after another S-matrix (same cutoff, other energy and cell) was reduced in the same process."),
         technique="TLA+ model of the window extraction checked by TLC against the property-level spec; TLA+ scenario enumeration and acceptance predicate over PRISM-vs-multislice differential runs; TLC trace validation",
         design_ref="DESIGN.md 5 C06",
         note=NOTE_COMMON + " With interpolation only the annular detector is compared (the statement promises the window probes); without interpolation an annular detector, a FlexibleAnnularDetector and a PixelatedDetector(max_angle='cutoff') with default limits are compared with Probe.scan (bin count / pattern size included). rint ties at half pixels are avoided by the chosen positions. Tolerance 5e-5.",
@@ -445,7 +464,8 @@ CHECKS = {
               "samplings / gpts smaller, larger, same x 4 grids x all-zero member x lazy; image targets same gpts / own sampling / "
               "gpts smaller, larger, mixed / finer, coarser sampling x 4 grids x real, complex x lazy; source-size layouts ss / oss / "
               "sos / sso x sigma small / anisotropic / wider than the scan x 3 integration ranges x lazy), quick: seeded 120."
-              " Round 3: stacks of 17 x 19 patterns of 32 x 32 and 5 x 5 patterns of 128 x 96, stratified quick tier."),
+              " Round 3: stacks of 17 x 19 patterns of 32 x 32 and 5 x 5 patterns of 128 x 96, stratified quick tier."
+              " Batch 8: a stack member 1e-10 times weaker than its neighbours; every pattern's total is judged against its own magnitude."),
         technique="TLA+ model of the sigma-to-axis bookkeeping checked by TLC; TLA+ scenario enumeration and acceptance predicate; TLC trace validation of runs on real measurement objects",
         design_ref="DESIGN.md 5 C16",
         note=NOTE_COMMON + " Tolerance 5e-5. The target-grid clause for a requested sampling is only applied where the statement needs it (same grid); spline interpolation is outside the statement.",
